@@ -867,6 +867,9 @@ C16_GROUPS = [
     ({"cxx": "cpp"}, "// ", ["t.cxx", "u.cxx", "v.x.cxx", "cxx", "w.cpp"]),
     ({"a.b": "py"}, "# ", ["x.a.b", "y.b", "a.b", "z.c.b", "sub/q.a.b"]),
     ({"mod": "py"}, "# ", ["go.mod", "legacy.mod", "x.go.mod"]),
+    # -E keys that are whole file names
+    ({"Dockerfile": "sh"}, "# ", ["Dockerfile", "docker/v1.2/Dockerfile", "app.Dockerfile", "Dockerfile.bak", "dockerfile"]),
+    ({"BUILD": "py", "WORKSPACE": "py"}, "# ", ["BUILD", "pkg/sub.d/BUILD", "defs.BUILD", "WORKSPACE", "BUILD.old"]),
 ]
 
 
@@ -887,6 +890,12 @@ def c16_multi(rep, tier, seed):
                 picked += [x for x in rnd.sample(n2, 1) if x not in picked]
         files = [{"path": p, "text": f"{c}<block name=\"k{i}\">\nv{i}\n{c}</block>\n"} for i, p in enumerate(picked)]
         walk = list(picked); rnd.shuffle(walk)
+        if k % 3 == 2:
+            # the files are named by a diff only (no path arguments): the grammar is chosen the same way
+            diff = "".join(f"diff --git a/{p} b/{p}\nindex 1..2 100644\n--- a/{p}\n+++ b/{p}\n@@ -2 +2 @@\n-old\n+v{i}\n" for i, p in enumerate(picked))
+            raws.append({"files": files, "walk": [], "allow": [], "ignore": [], "scan": False, "extra": extra, "diff": diff,
+                         "meta": {"gen": "lookup-multi", "k": k, "diff_only": True}})
+            continue
         raws.append({"files": files, "walk": walk, "allow": list(picked), "ignore": [], "scan": True, "extra": extra,
                      "meta": {"gen": "lookup-multi", "k": k}})
     d = os.path.join(K.WORK, rep.prop, "multi")
